@@ -113,6 +113,7 @@ CommonDefects(e) ==
   \cup (IF e.foreign # 0 THEN {<<"C07", "keys_outside_the_indexes">>} ELSE {})
   \cup (IF e.st.problems # <<>> THEN {<<"C16", "layout_problem">>} ELSE {})
   \cup (IF e.st.leafw_bad # 0 THEN {<<"C16", "leaf_width">>} ELSE {})
+  \cup (IF e.st.hdr_bad # 0 THEN {<<"C16", "leaf_header_inconsistent_with_its_vector">>} ELSE {})
 
 Bind(e, post) ==
   IF e.same THEN cur' = [cur EXCEPT ![e.i] = post]
@@ -238,6 +239,7 @@ ChangeMetric ==
                 (IF e.res.c # "Ok" THEN {<<"C18", "change_failed">>} ELSE {}) \cup
                 (IF Live(post) # Live(pre) THEN {<<"C18", "item_set_changed">>} ELSE {}) \cup
                 (IF e.st.leafw_bad # 0 THEN {<<"C18", "leaf_width_of_new_metric">>} ELSE {}) \cup
+                (IF e.st.hdr_bad # 0 THEN {<<"C18", "leaf_header_of_new_metric">>} ELSE {}) \cup
                 (IF e.to # pre.metric /\ (post.nodes # EmptyFn \/ post.meta # NoMeta) THEN {<<"C18", "old_forest_left">>} ELSE {}) \cup
                 (IF e.to # pre.metric /\ ~NeedBuildRes(post) THEN {<<"C18", "no_build_demanded">>} ELSE {}) \cup
                 (IF (\A x \in Live(pre) : pre.store[x] \in DOMAIN rq) /\ post # ChangeMetricOp(pre, e.to, rq)
@@ -345,6 +347,7 @@ SearchEv ==
          bad == CommonDefects(e) \cup Unchanged(e, pre, post, "C05")
                 \cup SearchDefects(e.q, post, nodesMs, LAMBDA p, x : SideLogged(ids, p, x))
      IN /\ Report("VIOL", e, IF Faulted(e) THEN {} ELSE bad)
+        /\ Report("DRIFT", e, IF post.meta = NoMeta THEN {} ELSE SearchDrift(e.q, post.meta.roots, Live(post), post.nodes))
         /\ Bind(e, post)
   /\ l' = l + 1
   /\ UNCHANGED <<committed, caps, ccaps, mapfull>>
